@@ -95,7 +95,85 @@ def rule_debug_tuple_sibling(ctx):
         ("debug_tuple", "debug_tuple_new", "constructor"),
         ("<Padded as Write>::write_str", "<PadAdapter as Write>::write_str", "pad adapter write_str"),
     ]
+    from .. import sibexec as X
+
+    dimpl = {fn.name: fn for fn in A.functions(lib) if fn.qual.startswith("DebugTuple::")}
+    cimpl = {fn.name: fn for fn in A.functions(core) if fn.qual.startswith("DebugTuple::")}
+    executed = set()
+    # SIB-EXEC: the three state-dependent methods are compared by their effect traces on every abstract builder state
+    for dq, cq, name in pairs[:3]:
+        if dq not in df or cq not in cf:
+            continue
+        diffs = []
+        try:
+            for fields in (0, 1, 2):
+                for pretty in (True, False):
+                    for empty in (True, False):
+                        for result in ("ok", "err"):
+                            st = {"fields": fields, "pretty": pretty, "empty_name": empty, "result": result}
+                            a = X.run_method(df[dq], dimpl, st, "dyn")
+                            b = X.run_method(cf[cq], cimpl, st, "closure")
+                            ctx.instance(f"sibexec:{name}:fields={fields if fields < 2 else '>=2'},pretty={pretty},empty_name={empty},result={result}", sample={"method": name, "state": st, "trace": [str(t) for t in a[0]][:6]})
+                            if a[0] != b[0] or a[1] != b[1]:
+                                diffs.append((st, a[0], b[0]))
+        except X.Unsupported as u:
+            ctx.note(f"SIB-EXEC cannot evaluate `{dq}` / `{cq}` ({u}); falling back to the textual skeleton comparison")
+            continue
+        executed.add(name)
+        if not diffs:
+            continue
+        fresh_only = all(
+            st["pretty"] and len(ta) == len(tb) and all(x == y or (x[:2] == ("value", "pad") and y == ("value", "pad", "inherit") and str(x[2]).startswith("fresh")) for x, y in zip(ta, tb)) for st, ta, tb in diffs
+        )
+        if name == "field" and fresh_only:
+            ctx.report(
+                "sib:field:pretty-value-fresh-format_args",
+                ctx.where(lib, df[dq].node),
+                "in the pretty (`{:#?}`) branch `DebugTuple::field` formats the value with a fresh `format_args!(\"{value:#?}\")` instead of the caller's (wrapped) formatter: "
+                "hex-debug, width, fill and precision are dropped (`{:#x?}` on a tuple struct prints `255`, std prints `0xff`)",
+                {"cases": [str(d[0]) for d in diffs]},
+            )
+            continue
+        st, ta, tb = diffs[0]
+        ctx.report(
+            f"sib:{name}",
+            ctx.where(lib, df[dq].node),
+            f"`{dq}` behaves differently from core's `{cq}` in {len(diffs)} abstract builder states, e.g. fields={'>=2' if st['fields'] == 2 else st['fields']}, pretty={st['pretty']}, empty_name={st['empty_name']}, result={st['result']}: "
+            f"derive_more does {[str(t) for t in ta]}, core does {[str(t) for t in tb]}: tuple structs / variants no longer print like std's derive for that formatter configuration",
+            {"states": [str(d[0]) for d in diffs]},
+        )
+    # the padding adapter: one loop iteration on (on_newline, piece ends with newline)
+    dq, cq0 = "<Padded as Write>::write_str", "<PadAdapter as Write>::write_str"
+    cqs = [q for q in cf if q.split("::")[-1] == "write_str" and "PadAdapter" in q]
+    if dq in df and len(cqs) == 1:
+        try:
+            diffs = []
+            for on in (True, False):
+                for nl in (True, False):
+                    a = X.run_loop_body(df[dq], {}, on, nl)
+                    b = X.run_loop_body(cf[cqs[0]], {}, on, nl)
+                    ctx.instance(f"sibexec:pad-adapter:on_newline={on},piece_ends_newline={nl}", sample={"trace": [str(t) for t in a[1]]})
+                    if A.alpha(a[0]) != A.alpha(b[0]) or a[1:] != b[1:]:
+                        diffs.append(((on, nl), a, b))
+            # and nothing but the loop and `Ok(())`
+            rest = [A.render_stmt(x) for x in df[dq].block["stmts"]]
+            tail_ok = rest and rest[-1] in ("Ok(())",) or (len(rest) == 1 and "try_for_each" in rest[0])
+            executed.add("pad adapter write_str")
+            if diffs or not tail_ok:
+                (on, nl), a, b = diffs[0] if diffs else ((None, None), ("", [], None), ("", [], None))
+                ctx.report(
+                    "sib:pad adapter write_str",
+                    ctx.where(lib, df[dq].node),
+                    f"`{dq}` differs from core's `PadAdapter::write_str`"
+                    + (f" for a piece with on_newline={on}, ends-with-newline={nl}: derive_more {a[0]} {[str(t) for t in a[1]]} -> on_newline={a[2]}, core {b[0]} {[str(t) for t in b[1]]} -> on_newline={b[2]}" if diffs else ": statements besides the per-line loop")
+                    + ": continuation lines of multi-line field output are indented differently from std",
+                    {},
+                )
+        except X.Unsupported as u:
+            ctx.note(f"SIB-EXEC cannot evaluate the padding adapter ({u}); textual comparison used")
     for dq, cq, name in pairs:
+        if name in executed:
+            continue
         if dq not in df:
             raise A.AnchorLost(f"src/fmt.rs::{dq}", "missing")
         if cq not in cf:
